@@ -6,7 +6,8 @@ from purecheck import PureCheck
 
 ALPHA = (97, 65317, 769)  # narrow, double-width, combining
 ATTS2 = [fmtlib.PLAIN, fmtlib.RED]
-WID = {97: 1, 98: 1, 32: 1, 65317: 2, 26085: 2, 769: 0, 8203: 0}
+WID = {97: 1, 98: 1, 32: 1, 65317: 2, 26085: 2, 128512: 2, 769: 0, 8203: 0, 3633: 0, 8205: 0, 4448: 0}
+ALPHA_X = (97, 3633, 65317, 8205, 128512, 4448)   # zero-width characters that are not canonical combining marks, an emoji
 
 
 def cols(runs):
@@ -17,7 +18,7 @@ class C10(PureCheck):
     pid = "C10"
     warm_every = 3
     rule = ("layouts of <=2 runs (quick; + sampled 3-run layouts with runs up to length 3) / <=3 runs (thorough) of length 0..2 "
-            "over {a (narrow), U+FF25 (double-width), U+0301 (combining)} x {plain, red}; width, width_at_offset(n) for every "
+            "over {a (narrow), U+FF25 (double-width), U+0301 (combining)} x {plain, red}, plus sampled layouts over {a, U+0E31, U+200D, U+1160 (zero width, not canonical combining marks), U+FF25, U+1F600}; width, width_at_offset(n) for every "
             "0<=n<=len+1, width_aware_slice for every 0<=a<=b<=width+2 (empty ranges and ranges starting/ending inside a "
             "double-width character included). distinct_nontrivial = distinct (layout, range) where the range cuts a "
             "double-width character or the layout has a zero-width character or >=2 runs")
@@ -38,6 +39,10 @@ class C10(PureCheck):
             runs3 = [[list(t), list(a)] for t in fmtlib.texts_upto(ALPHA, 3) for a in ATTS2]
             for _ in range(300):
                 pool.append([rng.choice(runs3) for _ in range(3)])
+        # other width classes: Thai vowel sign / ZWJ / Hangul filler (zero width, combining class 0), an emoji
+        runsx = [[list(t), list(a)] for t in fmtlib.texts_upto(ALPHA_X, 3, 1) for a in ATTS2]
+        for _ in range(250 if tier == "quick" else 4000):
+            pool.append([rng.choice(runsx) for _ in range(rng.choice([1, 2, 2, 3]))])
         for f in pool:
             w = cols(f)
             n = fmtlib.vlen(f)
